@@ -1066,7 +1066,12 @@ impl ServiceRunner {
         if !was_active || !right_addr {
             // a packet for a completed / unknown request, or from another address, must be ignored
             if !so.discovered.is_empty() {
-                out.push(format!("!MON C11 packet-after-completion-processed req=r{}", k));
+                let at_limit = r.completed_seen && r.packets.len() >= 15;
+                out.push(format!(
+                    "!MON C11 {} req=r{}",
+                    if at_limit { "too-many-packets-collected" } else { "packet-after-completion-processed" },
+                    k
+                ));
             }
             if banned && !was_active {
                 stats.bump("s.c11.late-packet-banned");
@@ -2159,7 +2164,8 @@ fn gen_c14(rng: &mut Rng, ops: &mut Vec<String>, stats: &mut Stats) {
             s.truncate(i);
             format!("{}/0", s)
         } else {
-            peer_addr(requester, if rng.chance(1, 4) { "ip6" } else { "ip4" })
+            // also from an address other than the one in the requester's record
+            peer_addr(requester + rng.below(2), if rng.chance(1, 4) { "ip6" } else { "ip4" })
         };
         if rng.chance(1, 5) {
             ops.push(format!("sreq A k{} {} {} ping {}", requester, addr, rid_tok(rng), rng.range(0, 5)));
